@@ -238,7 +238,7 @@ def gen_op(r, dw, weights, cfg):
             own = owner_channel(ref, key)
             view = gen_node_view(r, ref, prefer=("channel", own) if own and r.random() < 0.4 else None)
         # "badlist": a list init_val of the wrong length — must be refused and leave nothing behind
-        return {"op": "make_trainable", "view": view, "key": key, "init": r.choice([None, None, None, "float", "float", "list", "list", "badlist"]), "seed": seed}
+        return {"op": "make_trainable", "view": view, "key": key, "init": r.choice([None, None, None, "float", "float", "list", "list", "badlist", "zero"]), "seed": seed}
     if kind == "delete_trainables":
         k = r.random()
         if k < 0.5:
